@@ -50,6 +50,9 @@ def run(chk, tier):
         return
     lp = top[0]
     w = lp["where"]
+    common.pre_loop_returns(chk, "R-LIN", FN, prog, fn, lp["head"], opaque=OPAQUE, empty_of=P(fn.local_name(1) or "messages"),
+                            empty_ok=lambda l_: l_[0] == "adt" and listalg.seq(fld(l_, "message_groups")) == [] and fld(l_, "earliest_collection_time") == NONE
+                            and fld(l_, "latest_collection_time") == NONE, what="the pass over the messages")
     names = {fn.local_name(l): l for l in lp["tracked"]}
     if not {"summary", "current_group", "iter"} <= set(names):
         chk.blind("VN", FN, "loop state is not (summary, current_group, iterator): %s" % sorted(names), w)
